@@ -80,6 +80,9 @@ Definition mesh2 (cu cv : list Q) : list V3 :=
 
 Definition origin_or_zero (o : option V3) : V3 := match o with Some p => p | None => vzero end.
 
+(* origin["x"] = x : an in-place edit of the structured array the `origin` getter hands out *)
+Definition set_x (x : Q) (p : V3) : V3 := let '(_, y, z) := p in (x, y, z).
+
 Section Grids.
   (* rotm a p : the point p rotated by [a] degrees about the vertical axis (matrix of BlockModel.centroids /
      xy_rotation_matrix); dipm a p : p rotated by [a] degrees about the u axis (yz_rotation_matrix). *)
@@ -113,7 +116,11 @@ Section Grids.
   Inductive bm_op :=
   | BmRead
   | BmOrigin (o : V3) | BmRotation (a : Q)
-  | BmDU (d : list Q) | BmDV (d : list Q) | BmDZ (d : list Q).
+  | BmDU (d : list Q) | BmDV (d : list Q) | BmDZ (d : list Q)
+  (* bm.origin["x"] = x : not a setter call.  refused = the assignment raised (read-only array, after
+     fixes/C17-origin-inplace-readonly.patch) and nothing changes; otherwise the stored origin changes and the
+     centroid cache is NOT reset (open finding origin-inplace-stale) *)
+  | BmOriginX (refused : bool) (x : Q).
 
   Definition bm_with_cache (b : blockmodel) (c : option (list V3)) : blockmodel :=
     {| bm_origin := bm_origin b; bm_rotation := bm_rotation b; bm_du := bm_du b; bm_dv := bm_dv b; bm_dz := bm_dz b;
@@ -137,6 +144,10 @@ Section Grids.
                     bm_dz := bm_dz b; bm_cache := None |}, None)
     | BmDZ d => ({| bm_origin := bm_origin b; bm_rotation := bm_rotation b; bm_du := bm_du b; bm_dv := bm_dv b;
                     bm_dz := d; bm_cache := None |}, None)
+    | BmOriginX true _ => (b, None)
+    | BmOriginX false x =>
+        ({| bm_origin := Some (set_x x (origin_or_zero (bm_origin b))); bm_rotation := bm_rotation b; bm_du := bm_du b;
+            bm_dv := bm_dv b; bm_dz := bm_dz b; bm_cache := bm_cache b |}, None)
     end.
 
   Fixpoint bm_run (b : blockmodel) (ops : list bm_op) : blockmodel * list (list V3) :=
@@ -172,7 +183,8 @@ Section Grids.
   Inductive g_op :=
   | GRead
   | GOrigin (o : V3) | GRotation (a : Q) | GDip (a : Q) | GVertical (v : bool)
-  | GNu (n : nat) | GNv (n : nat) | GSu (s : Q) | GSv (s : Q).
+  | GNu (n : nat) | GNv (n : nat) | GSu (s : Q) | GSv (s : Q)
+  | GOriginX (refused : bool) (x : Q).       (* g.origin["x"] = x, see BmOriginX *)
 
   Definition g_mk o nu nv su sv r d v c : grid2d :=
     {| g_origin := o; g_nu := nu; g_nv := nv; g_su := su; g_sv := sv; g_rotation := r; g_dip := d; g_vertical := v;
@@ -199,6 +211,8 @@ Section Grids.
     | GNv n => (g_mk o nu n su sv r d v None, None)
     | GSu s => (g_mk o nu nv s sv r d v None, None)
     | GSv s => (g_mk o nu nv su s r d v None, None)
+    | GOriginX true _ => (g, None)
+    | GOriginX false x => (g_mk (set_x x o) nu nv su sv r d v (g_cache g), None)
     end.
 
   Fixpoint g_run (g : grid2d) (ops : list g_op) : grid2d * list (list V3) :=
